@@ -75,6 +75,8 @@ def decide(eng: Engine, harness, post, inputs, r: ObResult, describe=None, max_c
         eng.solver.set("timeout", 8000)
         res, m = eng.check(z3.Not(cond), pc=pc)
         eng.solver.set("timeout", eng.solver_timeout_ms)
+        if str(res) == "unknown" and len(plist) == 1:
+            res, m = eng.check(z3.Not(cond), pc=pc)  # once more with the full time budget
         if str(res) == "unknown" and len(plist) > 1:
             # decide the conjuncts one by one (each query is much simpler than the conjunction)
             res = z3.unsat
